@@ -551,6 +551,19 @@ func parseExpires(expires *string) *time.Time {
 	return nil
 }
 
+// taggingHeaderValue encodes a tag set as the URL query string the
+// x-amz-tagging header expects. An empty tag set yields nil.
+func taggingHeaderValue(tags map[string]string) *string {
+	if len(tags) == 0 {
+		return nil
+	}
+	values := url.Values{}
+	for k, v := range tags {
+		values.Set(k, v)
+	}
+	return aws.String(values.Encode())
+}
+
 func (rs *s3ClientStorage) PutObject(ctx context.Context, bucketName storage.BucketName, key storage.ObjectKey, contentType *string, reader io.Reader, checksumInput *storage.ChecksumInput, opts *storage.PutObjectOptions) (*storage.PutObjectResult, error) {
 	ctx, span := rs.tracer.Start(ctx, "S3ClientStorage.PutObject")
 	defer span.End()
@@ -593,6 +606,9 @@ func (rs *s3ClientStorage) PutObject(ctx context.Context, bucketName storage.Buc
 	}
 	if opts != nil && opts.StorageClass != nil {
 		input.StorageClass = types.StorageClass(*opts.StorageClass)
+	}
+	if opts != nil {
+		input.Tagging = taggingHeaderValue(opts.Tags)
 	}
 	putObjectResult, err := rs.s3Client.PutObject(ctx, input)
 	var notFoundError *types.NotFound
